@@ -211,6 +211,21 @@ fn crafted_programs() -> Vec<Prog> {
         };
         v.push(Prog { origin: format!("crafted-shared-failures-permuted-{n}"), src, consts: vec![] });
     }
+    // programs that must be refused whatever the order in which the checker visits the functions
+    for (n, src) in [
+        "pub fn offset() -> u8 { 3u8 }\npub fn main(x: u8) -> u8 { x + offset() }\n",
+        "pub fn offset() -> u8 { 3u8 }\nfn via(x: u8) -> u8 { x + offset() }\npub fn main(x: u8) -> u8 { via(x) }\n",
+        "pub fn a() -> u8 { 1u8 }\npub fn b(x: u8) -> u8 { x + a() }\npub fn c(x: u8) -> u8 { b(x) + a() }\npub fn main(x: u8) -> u8 { c(x) }\n",
+        "pub fn helper(x: u8) -> u8 { x + true }\npub fn main(x: u8) -> u8 { helper(x) }\n",
+        "pub fn a(x: u8) -> u8 { b(x) }\npub fn b(x: u8) -> u8 { a(x) }\npub fn main(x: u8) -> u8 { a(x) }\n",
+        "fn unused(x: u8) -> u8 { x }\npub fn other(x: u8) -> u8 { x }\npub fn main(x: u8) -> u8 { other(x) }\n",
+        "pub fn p(x: u8) -> u8 { x + y }\npub fn q(x: u8) -> u8 { p(x) }\npub fn main(x: u8) -> u8 { q(x) + p(x) }\n",
+    ]
+    .iter()
+    .enumerate()
+    {
+        v.push(Prog { origin: format!("crafted-refusal-{n}"), src: src.to_string(), consts: vec![] });
+    }
     // large circuits (size-triggered behaviour of the builder: cache growth, eviction, reallocation)
     v.push(Prog {
         origin: "crafted-large-u64-products".into(),
